@@ -822,6 +822,28 @@ class Interp:
                     raise Unmodelled('Ord::cmp of %s does not return an Ordering' % a[1])
                 gt = o_[2] == 2
                 return (a if gt else b) if seg == 'max' else (b if gt else a)
+            if a[0] == 'tuple' and b[0] == 'tuple' and len(a[1]) == len(b[1]) and a[1]:
+                # lexicographic: decided on the first component that differs; when every leading component is equal and the LAST one cannot
+                # be ordered (two symbolic counters), the result is (the common prefix, max / min of the last components)
+                for i_, (ca, cb) in enumerate(zip(a[1], b[1])):
+                    xa, xb = self.deref_all(ca.v), self.deref_all(cb.v)
+                    last_ = i_ == len(a[1]) - 1
+                    if xa is not None and xb is not None and xa[0] in ('ts', 'dur', 'ticks') and xb[0] == xa[0]:
+                        r_ = self.order.cmp(xa[1], xb[1])
+                    elif xa is not None and xb is not None and xa[0] == 'int' and xb[0] == 'int' and xa[1] is not None and xb[1] is not None:
+                        r_ = '<' if xa[1] < xb[1] else ('>' if xa[1] > xb[1] else '=')
+                    elif last_:
+                        m_ = self.elem_extreme(name, seg, xa, xb, t, depth)
+                        return ('tuple', [Cell(c_.v) for c_ in b[1][:-1]] + [Cell(m_)])
+                    else:
+                        raise Unmodelled('max/min on tuples whose component %d cannot be ordered' % i_)
+                    if r_ == '=':
+                        continue
+                    gt_ = r_ == '>'
+                    return (a if gt_ else b) if seg == 'max' else (b if gt_ else a)
+                return b if seg == 'max' else a
+            if a[0] == 'adt' and b[0] == 'adt' and a[1] == b[1] == 'core::option::Option':
+                return self.elem_extreme(name, seg, a, b, t, depth)
             if a[0] not in ('ts', 'dur', 'ticks') or b[0] != a[0]:
                 raise Unmodelled('max/min on %s' % a[0])
             r = self.order.cmp(a[1], b[1])
@@ -1100,6 +1122,23 @@ class Interp:
             # two field-less enum values (an Ordering compared with Ordering::Less, a private verdict enum)
             return mk_bool((a[2] == b[2]) == (seg == 'eq'))
         raise Unmodelled('comparison %s on %s / %s' % (seg, a[0], b[0]))
+
+    def elem_extreme(self, name, seg, xa, xb, t, depth):
+        """max / min of two values of one component type: Options (None below Some), the summary's own abstract values through its hook"""
+        if xa is not None and xb is not None and xa[0] == 'adt' and xb[0] == 'adt' and xa[1] == xb[1] == 'core::option::Option':
+            sa, sb = xa[2] == 1, xb[2] == 1
+            if not sa and not sb:
+                return xa
+            if sa != sb:
+                some_, none_ = (xa, xb) if sa else (xb, xa)
+                return some_ if seg == 'max' else none_
+            return mk_option(self.elem_extreme(name, seg, self.deref_all(xa[3][0].v), self.deref_all(xb[3][0].v), t, depth))
+        if self.opaque_call is not None:
+            body_ = getattr(self, 'cur', (None, None))[0]
+            r_ = self.opaque_call(self, 'core::cmp::max' if seg == 'max' else 'core::cmp::min', [xa, xb], t, body_)
+            if r_ is not None:
+                return r_
+        return self.model_call('core::cmp::max' if seg == 'max' else 'core::cmp::min', [xa, xb], t, depth)
 
     def model_option(self, name, seg, A, depth):
         v = A[0]
